@@ -37,9 +37,26 @@ def gen_string(rng):
     return ''.join(rng.choice(ALPHA) for _ in range(rng.randint(0, 6)))
 
 
+def gen_bulk(rng):
+    """one shape shared by more strings than max_strings_in_group (10): a fragment constant over the first
+    9..13 strings and different in a few later ones (the per-fragment string cap is a boundary of the code)"""
+    k = rng.choice([9, 10, 11, 12, 13])
+    pre, alt = rng.choice([('ID', 'XY'), ('ab', 'cd'), ('7', '8'), ('x_', 'y_')])
+    sep = rng.choice(['-', '.', ':', ''])
+    out = ['%s%s%04d' % (pre, sep, 1000 + 37 * i) for i in range(k)]
+    out += ['%s%s%04d' % (alt, sep, 42 + i) for i in range(rng.choice([0, 1, 2]))]
+    return out
+
+
 def gen_examples(rng, nmax=8):
     n = rng.choice([1, 1, 2, 3, 4, 5, nmax, nmax])
     base = [gen_string(rng) for _ in range(n)]
+    if rng.random() < 0.08:
+        bulk = gen_bulk(rng)
+        out = base[:2] + bulk
+        if rng.random() < 0.5:
+            rng.shuffle(out)
+        return out
     if rng.random() < 0.4:
         # a family: shared structure so that alignment / merging has something to do
         fam = rng.choice([['abc.com', 'def.com', '.com'], ['$5', '$7', 'US$5', 'CA$9'], ['ab-1', 'cd-2', '-x'],
@@ -108,8 +125,6 @@ def unmatched(rexes, strings):
 # classes of the recorded C03 findings (DESIGN 7 C03)
 def finding_class(s, opts):
     """Why an unmatched example may belong to a recorded finding, else None."""
-    if any(ch.isdigit() and not re.match(r'\d', ch) for ch in s):
-        return 'c03-digit-like'
     if opts.get('dialect', 'portable') in ('portable', 'grep') and any(re.match(r'\d', ch) and not ('0' <= ch <= '9') for ch in s):
         return 'c03-portable-digits'
     return None
